@@ -22,6 +22,13 @@ Node == [vars |-> [http_port |-> S("39200"), log_path |-> S("$NODE/logs/server")
                      W("$NODE/install-data", FALSE, FALSE), W("$NODE/install/sibling", FALSE, FALSE), W("$NODE/data", FALSE, FALSE)>>
                    \o [i \in DOMAIN AllData |-> W("$DATA/" \o AllData[i], FALSE, FALSE)]]
 
+DH == "/usr/share/elasticsearch"
+Docker == [vars |-> [http_port |-> S("39200"), log_path |-> S("/var/log/elasticsearch"), install_root_path |-> S(DH),
+                     data_paths |-> L(<<DH \o "/data">>), network_host |-> S("0.0.0.0"), cluster_settings |-> S("{}")],
+           home |-> "$DNODE/install", es_version |-> "9.9.9", node_ip |-> "10.0.0.1", http_port |-> "39200",
+           volumes |-> <<<<"$DNODE/data/UUID", DH \o "/data">>, <<"$DNODE/logs/server", "/var/log/elasticsearch">>,
+                         <<"$DNODE/heapdump", DH \o "/heapdump">>>>]
+
 CarName(i) == <<"c1", "c2", "c3", "c4">>[i]
 Car(i, bs, vs) == [name |-> CarName(i), kind |-> IF bs = <<>> THEN "mixin" ELSE "car", bases |-> bs, vars |-> vs]
 
@@ -41,7 +48,7 @@ UniverseV(names, bnames, layouts) ==
     UNION {
     {[cars |-> [i \in 1..n |-> Car(i, lay[i], Def(cf[i], nm, CarName(i)))],
       bases |-> [b \in bnames |-> [vars |-> Def(bf[b], nm, b), tree |-> TreeV[b]]],
-      params |-> pv, tpl |-> Tpl, shipped |-> ShipBare, preserve |-> pr, node |-> Node, more |-> <<>>] :
+      params |-> pv, tpl |-> Tpl, shipped |-> ShipBare, preserve |-> pr, node |-> Node, docker |-> Docker, more |-> <<>>] :
         lay \in layouts, n \in 1..3, cf \in [1..3 -> BOOLEAN], bf \in [bnames -> BOOLEAN],
         pv \in ParamsFor(nm), pr \in BOOLEAN} : nm \in names}
 
@@ -70,7 +77,7 @@ UniverseP(bnames, maxBases, maxCars) ==
     LET BaseSeqs == SeqsUpTo(bnames, maxBases) IN
     {[cars |-> [i \in DOMAIN bl |-> Car(i, bl[i], NoVars)],
       bases |-> [b \in bnames |-> [vars |-> "x" :> Val(b), tree |-> tp[b]]],
-      params |-> NoVars, tpl |-> Tpl, shipped |-> ShipFull, preserve |-> FALSE, node |-> Node, more |-> <<>>] :
+      params |-> NoVars, tpl |-> Tpl, shipped |-> ShipFull, preserve |-> FALSE, node |-> Node, docker |-> Docker, more |-> <<>>] :
         bl \in UNION {[1..n -> BaseSeqs] : n \in 1..maxCars}, tp \in TreePairs}
 
 -----------------------------------------------------------------------------
@@ -87,7 +94,7 @@ Choices(maxFiles) == {ch \in [1..4 -> {"-", "a", "b"}] : Cardinality({i \in 1..4
 UniverseT(maxFiles) ==
     {[cars |-> cl,
       bases |-> [b \in {"b1", "b2"} |-> [vars |-> "x" :> Val(b), tree |-> IF b = "b1" THEN TreeOf(c1) ELSE TreeOf(c2)]],
-      params |-> NoVars, tpl |-> Tpl, shipped |-> sh, preserve |-> FALSE, node |-> Node, more |-> <<>>] :
+      params |-> NoVars, tpl |-> Tpl, shipped |-> sh, preserve |-> FALSE, node |-> Node, docker |-> Docker, more |-> <<>>] :
         cl \in {<<Car(1, <<"b1", "b2">>, "x" :> Val("c1"))>>, <<Car(1, <<"b2">>, NoVars), Car(2, <<"b1">>, NoVars)>>},
         c1 \in Choices(maxFiles), c2 \in Choices(maxFiles), sh \in {ShipFull, ShipBare}}
 
@@ -99,7 +106,7 @@ DataVals == {S("$ES-data"), L(<<"$ES/data", "$ES.data0", "$ES.data1">>), S("$ES/
 UniverseC ==
     {[cars |-> <<Car(1, <<"b1">>, cv)>>,
       bases |-> [b \in {"b1"} |-> [vars |-> bv, tree |-> TreeV[b]]],
-      params |-> pv, tpl |-> Tpl, shipped |-> ShipBare, preserve |-> pr, node |-> Node, more |-> <<>>] :
+      params |-> pv, tpl |-> Tpl, shipped |-> ShipBare, preserve |-> pr, node |-> Node, docker |-> Docker, more |-> <<>>] :
         cv \in {NoVars, DP(S("$DATA/c1")), DP(S("$ES-data"))}, bv \in {NoVars, DP(S("$ES.data0"))},
         pv \in {NoVars} \cup {DP(v) : v \in DataVals}, pr \in BOOLEAN}
 
@@ -110,7 +117,7 @@ Later(j) == [vars |-> [http_port |-> S("3920" \o j), log_path |-> S("$NODE" \o j
 UniverseN ==
     {[cars |-> <<Car(1, <<"b1">>, cv), Car(2, <<"b2">>, NoVars)>>,
       bases |-> [b \in {"b1", "b2"} |-> [vars |-> bv, tree |-> TreeV[b]]],
-      params |-> pv, tpl |-> Tpl, shipped |-> ShipBare, preserve |-> pr, node |-> Node, more |-> mo] :
+      params |-> pv, tpl |-> Tpl, shipped |-> ShipBare, preserve |-> pr, node |-> Node, docker |-> Docker, more |-> mo] :
         cv \in {NoVars, DP(S("$DATA/c1")), "http_port" :> S("1")}, bv \in {NoVars, DP(S("$DATA/b1"))},
         pv \in {NoVars, DP(L(<<"$DATA/p", "$DATA/q">>)), "x" :> Val("p")}, pr \in BOOLEAN,
         mo \in {<<Later("2")>>, <<Later("2"), Later("3")>>}}
